@@ -41,6 +41,7 @@ ASSUMPTIONS = [
 def setup(ctx):
     gcustom.ensure_registered()
     ctx.count("refused_registrations_before_the_workload", gcustom.refused_registrations())
+    ctx.count("refused_registrations_that_left_something_behind", len(gcustom.LEFT_BEHIND))
 
 
 def injections(ver, o, rng):
